@@ -1,4 +1,5 @@
 import SlipVerif.Model.Reader
+import SlipVerif.Model.ReaderHist
 import SlipVerif.Lemmas.Reader
 import SlipVerif.Lemmas.ReaderInv
 import SlipVerif.Lemmas.ReaderHalt
@@ -238,5 +239,67 @@ theorem readOne_is_first_form (T : Tables) (cfg : Cfg) (bs : List Byte) (o : Obj
    Proved parts: `readOne_position_partial` (the position lies within the text),
    `readOne_ignores_rest` (it depends only on the bytes up to the end of the form) and
    `readOne_is_first_form` (the form is the first form of the whole-text read). -/
+
+/-! ### histories on one stream (Model/ReaderHist.lean): `read` mixed with character operations -/
+
+/-- **Looking ahead is neutral.** `peek-char` leaves the cursor where it is: whatever is read
+    afterwards — forms, characters, lines, bytes — is what would have been read without the peek.
+    (An implementation that drops or duplicates the pushed back character breaks exactly this.) -/
+theorem hist_peek_neutral (T : Tables) (cfg : Cfg) (text : List Byte) (s : HState) (ops : List HOp)
+    (h0 : s.lastChar = 0) :
+    (runHist T cfg text (hstep T cfg text s .peek).1 ops) = runHist T cfg text s ops := by
+  have : (hstep T cfg text s .peek).1 = s := by
+    unfold hstep
+    cases hs : s.stopped
+    · simp only [Bool.false_eq_true, if_false]
+      cases text.drop s.cursor <;> (cases s; simp_all)
+    · simp
+  rw [this]
+
+/-- **read-char followed by unread-char is neutral**: the cursor is back where it was. -/
+theorem hist_unread_restores (T : Tables) (cfg : Cfg) (text : List Byte) (s : HState)
+    (hlive : s.stopped = false) (h0 : s.lastChar = 0) (hmore : text.drop s.cursor ≠ []) :
+    (hstep T cfg text (hstep T cfg text s .readChar).1 .unreadChar).1 = s := by
+  have hlen : 0 < runeLen (text.drop s.cursor) := by
+    unfold runeLen
+    cases hd : text.drop s.cursor with
+    | nil => exact absurd hd hmore
+    | cons b bs =>
+      simp only []
+      split
+      · split <;> simp
+      · have := encodeRune_ne_nil (decodeRune (b :: bs))
+        exact List.length_pos_iff.mpr this
+  cases hd : text.drop s.cursor with
+  | nil => exact absurd hd hmore
+  | cons b bs =>
+    rw [hd] at hlen
+    have hne : runeLen (b :: bs) ≠ 0 := by omega
+    cases s with
+    | mk cursor lastChar stopped =>
+      simp only [] at hlive h0 hd
+      subst hlive h0
+      simp [hstep, hd, hne]
+
+/-- **A form read moves the cursor by exactly the form** and never beyond the text (with the
+    regenerated tables: `GenC02.step_total`). -/
+theorem hist_read_cursor_le (T : Tables) (hT : tablesOK T = true) (cfg : Cfg) (text : List Byte) (s : HState)
+    (hc : s.cursor ≤ text.length) : (hstep T cfg text s .read).1.cursor ≤ text.length := by
+  unfold hstep
+  cases hs : s.stopped
+  · simp only [Bool.false_eq_true, if_false]
+    cases hr : readOne T cfg (text.drop s.cursor) with
+    | ok v =>
+      obtain ⟨o, pos⟩ := v
+      have := readOne_position_partial T hT cfg _ o pos hr
+      simp at this ⊢
+      omega
+    | error e =>
+      cases e <;> simp [hc]
+  · simpa using hc
+
+-- a non-trivial state satisfying the hypotheses: the cursor inside "ab c", nothing just read
+example : ({ cursor := 1 } : HState).stopped = false ∧ ({ cursor := 1 } : HState).lastChar = 0 ∧
+    ([97, 98, 32, 99] : List Byte).drop ({ cursor := 1 } : HState).cursor ≠ [] := by decide
 
 end SlipVerif.Theorems.C02
